@@ -692,7 +692,7 @@ pub fn set_op(op: SetOp, all: bool, l: Vec<Row>, r: Vec<Row>) -> Vec<Row> {
             let mut out = vec![];
             for row in l {
                 match rcount.get_mut(&RowKey(row.clone())) {
-                    Some(c) if *c > 0 => {}
+                    Some(c) if *c > 0 => *c -= 1,
                     _ => out.push(row),
                 }
             }
